@@ -72,6 +72,8 @@ Fixpoint mapM {A B} (f : A -> res B) (l : list A) : res (list B) :=
 Definition of_opt {A} (e : err) (o : option A) : res A := match o with Some a => Ok a | None => Err e end.
 
 Definition onone {A} (o : option A) : bool := match o with None => true | Some _ => false end.
+(* Python `a == b` between a possibly-None value and an int *)
+Definition oz_eqb (a : option Z) (b : Z) : bool := match a with Some x => x =? b | None => false end.
 
 (* l[i] for a Python list and a NON-NEGATIVE index (negative indices are never produced by the model's callers) *)
 Definition zth {A} (l : list A) (i : Z) : option A := if i <? 0 then None else nth_error l (Z.to_nat i).
